@@ -27,12 +27,12 @@ theorem escape_amp (s : List Char) (pre post : List Char) (h : escape s = pre ++
 
 mutual
 /-- the text a reader recovers from rendered DOM: its text leaves, unescaped, in order -/
-def Html.textOf : Html → List Char
+def htmlText : Html → List Char
   | .text s => unescape s
   | .el _ _ kids => textOfAll kids
 def textOfAll : List Html → List Char
   | [] => []
-  | h :: hs => h.textOf ++ textOfAll hs
+  | h :: hs => htmlText h ++ textOfAll hs
 end
 
 mutual
